@@ -14,7 +14,7 @@ MATRIX_KINDS = ('general', 'symneg', 'skew', 'nilpotent', 'diagonal', 'stiff', '
 DIMS = (1, 2, 3, 4, 5, 6)
 STEPS = (1.0, 0.3, 0.1, 0.03)
 NORMS = (1.0, 1e-3, 10.0, 1e3)
-STATE_SHAPES = ('vector', 'batch', 'list', 'kwargs', 'scalar')
+STATE_SHAPES = ('vector', 'batch', 'list', 'kwargs', 'scalar', 'int', 'float32', 'tuple', 'batch1')
 
 
 def integrator_class(i):
@@ -25,7 +25,7 @@ def integrator_class(i):
     r = i // 96
     h = STEPS[(i // 2 + i // 16 + r) % 4]
     norm = NORMS[(i // 8 + r) % 4 if (i // 2) % 3 else 0]          # two thirds of the cases at norm 1
-    shape = STATE_SHAPES[(i // 2 + i // 32 + 2 * r) % 5]
+    shape = STATE_SHAPES[(i // 2 + i // 32 + 2 * r) % len(STATE_SHAPES)]
     if shape == 'scalar' and d != 1:
         shape = 'vector'
     return method, kind, d, h, norm, shape
@@ -109,16 +109,16 @@ def slope_class(i):
 
 # ---------------------------------------------------------------- gradients
 FUNC_KINDS = ('mixed', 'trig', 'quadratic', 'exp', 'quartic')
-POINT_SHAPES = ('n', 'mn', 'abn', '1n', 'list', 'int')
+POINT_SHAPES = ('n', 'mn', 'abn', '1n', 'list', 'int', 'float32', 'tuple')
 GRAD_DIMS = (1, 2, 3, 5)
 SHIFT_CLASSES = ('default', 'kw1e-3', 'pos1e-2', 'kw1e-4', 'halvings')
 
 
 def gradient_class(i):
     kind = FUNC_KINDS[i % 5]
-    shape = POINT_SHAPES[(i // 5) % 6]
-    n = GRAD_DIMS[(i // 30 + i) % 4]
-    shift = SHIFT_CLASSES[(i // 30 + i // 5 + i) % 5]
+    shape = POINT_SHAPES[(i // 5) % len(POINT_SHAPES)]
+    n = GRAD_DIMS[(i // 40 + i) % 4]
+    shift = SHIFT_CLASSES[(i // 40 + i // 5 + i) % 5]
     return kind, shape, n, shift
 
 
@@ -133,6 +133,10 @@ def gen_points(rng, shape, n):
         p = rng.uniform(-1.5, 1.5, (1, n))
     elif shape == 'int':                       # integer-valued evaluation points (lattice sites)
         p = rng.integers(-2, 3, (int(rng.integers(1, 5)), n))
+    elif shape == 'float32':                   # single-precision storage of the points (values are exact float32 numbers)
+        p = rng.uniform(-1.5, 1.5, (int(rng.integers(1, 6)), n)).astype(np.float32)
+    elif shape == 'tuple':                     # handed over as nested tuples
+        p = rng.uniform(-1.5, 1.5, (int(rng.integers(1, 4)), n))
     else:
         raise ValueError(shape)
     return p
@@ -189,10 +193,31 @@ def gen_string(rng, n_img, init, c):
 STEP_CLIMB = ('none', 'int', 'list1', 'list2', 'array1', 'npint')
 
 
+STEP_IMAGES = IMAGES + (5, 7)                   # down to the shortest strings that still have two interior segments
+COORD_FORMS = ('array', 'list', 'tuple', 'array')
+
+
 def step_class(i):
-    n_img = IMAGES[i % 8]
+    n_img = STEP_IMAGES[(i + i // 30) % 10]
     init = INITIAL[(i // 8 + i) % 4]
     climb = STEP_CLIMB[i % 6]
     iopt = ('rk', 'euler', 'omitted')[(i // 6 + i) % 3]
     ts = ('default', 'explicit')[(i // 6) % 2]
     return n_img, init, climb, iopt, ts
+
+
+# ---------------------------------------------------------------- call histories (state kept between instances)
+HIST_ENTRIES = ('ISMPath', 'create_path', 'BasePath', 'create_path-style-long', 'create_path-from-path', 'deepcopy')
+HIST_KINDS = ('edit-default', 'edit-none', 'custom-then-default', 'edit-child')
+HIST_SHIFTS = (0.2, 0.05, 0.01)
+HIST_IMAGES = (9, 12, 10, 15)
+
+
+def history_class(i):
+    """(entry point, history kind, shift written into the other path, image count): all 24 entry x kind pairs
+    within any 24 consecutive cases."""
+    entry = HIST_ENTRIES[i % 6]
+    kind = HIST_KINDS[(i // 6 + i) % 4]
+    s = HIST_SHIFTS[(i // 6 + i // 24) % 3]
+    n_img = HIST_IMAGES[(i // 3 + i // 24) % 4]
+    return entry, kind, s, n_img
